@@ -32,6 +32,14 @@ def classify(why, f, c, o):
     # D15: worker dies after writing its exit announcement, still holding the result-queue write lock
     if hang and "rq.wlock.rel" in crash_at:
         return {"defect": "D15"}
+    # D19: _resize spawns workers outside the processes management lock: a new worker can announce an idle-timeout exit
+    #      before it is registered; the manager cannot complete the handshake, the worker leaves after the 30 s grace
+    #      period and its sentinel breaks the pool -- a broken pool although no process died abruptly
+    if "reuse" in ops and f["timeout"] and not f["crashes"] and "shutdown:kill" not in ops and not any("kill_workers" in str(op) for u in c["scn"]["users"].values() for op in u) \
+            and any((e["ev"] == "die" and e.get("how") == "killed") or (e["ev"] == "reuse_ret" and e.get("broken"))
+                    or "BrokenProcessPool" in (e.get("mro") or []) for e in o["trace"]) \
+            and not any(op[0] == "submit" and op[2] in ("crash", "unloadable_arg", "unloadable_result") for u in c["scn"]["users"].values() for op in u):
+        return {"defect": "D19"}
     # D4: final liveness poll of _resize on a stale snapshot
     if f.get("end") in ("livelock", "diverges") and "reuse" in ops and any(("@is_alive" in b or b.endswith("@sleep")) and b.startswith("u") for b in blocked):
         return {"defect": "D4"}
